@@ -129,7 +129,7 @@ class Judge:
         codes = collections.Counter(case["sg"][i % R] for i in rows)
         unexplained = [i for i in rows if case["sg"][i % R] == 0]
         if unexplained:
-            ctx.violation({"e": case["e"], "variant": case["variant"], "rows": unexplained[:20], "detail": detail},
+            ctx.violation({"e": case["e"], "variant": case["variant"], "rows": unexplained[:20], "detail": detail, "sg": case["sg"]},
                           f"{what}: {render(case['e'])} differs on rows {unexplained[:8]} where no Float64 comparison leaf sees NaN or the two zeros")
             return
         for code, n in codes.items():
@@ -287,14 +287,15 @@ def run(ctx):
             for fams in (["f64leaf", "intleaf", "decline", "bool"], ["arith"], ["arith2"], ["bool3"]):
                 emit.append((derive_cfg(ctx, base, f"emit-{v}-{fams[0]}.cfg", Variants='{"%s"}' % v, Families="{" + ", ".join(json.dumps(f) for f in fams) + "}"),
                              f"as-built, table variant {v}, families {'+'.join(fams)}", 4))
-    side = [("CompiledExpr_fixed_quick.cfg", "repaired evaluator (total_cmp): agrees everywhere, no escape", None),
+    fixed = "CompiledExpr_fixed_quick.cfg" if quick else derive_cfg(ctx, "CompiledExpr_fixed_quick.cfg", "fixed-all.cfg", Families='{"f64leaf", "arith", "arith2", "bool", "bool3"}')
+    side = [(fixed, "repaired evaluator (total_cmp): agrees everywhere, no escape", None),
             ("CompiledExpr_strict_bad.cfg", "as-built without the deviation escape: counterexample expected", "Agree")]
     vmcfg = "CompiledVM_quick.cfg" if quick else "CompiledVM_thorough.cfg"
     side.append((vmcfg, "the register machine (compiler + chunked eval_chunk, one action per instruction) refines the compiled row function on every batch length around the chunk boundary", None, "CompiledVM"))
     if not quick:
         side += [(derive_cfg(ctx, "CompiledExpr_fixed_quick.cfg", f"{m}.cfg", Impl=f'"{m}"', Strict="FALSE"), f"mutant {m}: rejected", "Agree") for m in MUTANTS]
         side += [(derive_cfg(ctx, "CompiledVM_quick.cfg", f"vm-{m}.cfg", VM=f'"{m}"'), f"machine mutant {m}: rejected", inv, "CompiledVM") for m, inv in VM_MUTANTS.items()]
-    pool = cf.ThreadPoolExecutor(max_workers=4 if quick else 3)
+    pool = cf.ThreadPoolExecutor(max_workers=5 if quick else 3)
     side_f = [pool.submit(lambda s=s: (s, tlc(ctx, s[0], os.path.basename(s[0])[:-4], 2, coverage=(not quick and len(s) > 3 and s[2] is None), module=(s[3] if len(s) > 3 else "CompiledExpr")))) for s in side]
     emit_f = [pool.submit(lambda r=r: (r, tlc(ctx, r[0], os.path.basename(r[0])[:-4], r[2], coverage=not quick))) for r in emit]
     n_cases = 0
@@ -379,7 +380,7 @@ def replay(ctx, obj):
     tables = {r["variant"]: r for k, r in res.prints if k == "TABLE"}
     v = c.get("variant", "nulls")
     R = tables[v]["rows"]
-    case = {"e": c["e"], "variant": v, "compiled": -1, "ri": None, "rc": None, "sg": [0] * R}
+    case = {"e": c["e"], "variant": v, "compiled": -1, "ri": None, "rc": None, "sg": c.get("sg") or [0] * R}
     J = Judge(ctx)
     g = [{"variant": v, "table": {k: tables[v][k] for k in "fgkmd"}, "lens": LENS, "sql": 0, "cases": [{"id": 0, "e": c["e"]}]}]
     A = run_harness(ctx, g, "replay-a")
